@@ -28,6 +28,7 @@ type tinfo struct {
 	pending bool // a lazy transpose may be pending (conservative)
 	root    int  // handle of the tensor whose storage this one lives in (itself for fresh tensors)
 	strided bool // a library result that kept the strided storage of a view operand (clone of a view's window)
+	masked  bool // the storage this tensor lives in carries a mask (masked tensors take part in structural and mask operations only)
 }
 
 type gen struct {
@@ -102,11 +103,39 @@ func (g *gen) pick(hs []int) int { return hs[g.r.Intn(len(hs))] }
 func (g *gen) sameShape(h int, f func(int) bool) []int {
 	var out []int
 	for _, o := range g.alive() {
-		if o != h && eq(g.shape(o), g.shape(h)) && !g.info[o-1].boolean && !g.info[o-1].integer && !g.info[o-1].strided && (f == nil || f(o)) {
+		if o != h && eq(g.shape(o), g.shape(h)) && !g.info[o-1].boolean && !g.info[o-1].integer && !g.info[o-1].strided && !g.info[o-1].masked && (f == nil || f(o)) {
 			out = append(out, o)
 		}
 	}
 	return out
+}
+
+// afterReturn: the struct just handed back is what the library's next borrow receives (New, Slice, Materialize and
+// the results of products / Repeat / Stack take their struct from that pool).  Build a fresh tensor from it and
+// exercise what depends on the struct's other fields: a fresh tensor has no mask, no pending transpose, is no view.
+func (g *gen) afterReturn() bool {
+	if g.r.Intn(3) == 0 || len(g.alive()) >= 8 {
+		return true
+	}
+	out, ok := g.do(mk("New", 0, []interface{}{g.randShape(), "C", ""}))
+	if !ok || !out.IsNew {
+		return ok
+	}
+	r := out.Ret
+	ri := g.info[r-1]
+	switch g.r.Intn(5) {
+	case 0, 1:
+		_, ok = g.do(mk("ResetMask", r, []int{}))
+		ri.masked = true
+	case 2:
+		_, ok = g.do(mk("MaskPred", r, []interface{}{"gt", g.r.Intn(3), 0}))
+		ri.masked = true
+	case 3:
+		_, ok = g.do(mk("UT", r, []int{}))
+	default:
+		_, ok = g.do(mk("Materialize", r, []int{}))
+	}
+	return ok
 }
 
 func (g *gen) plainDest(h int) bool {
@@ -118,6 +147,7 @@ func (g *gen) plainDest(h int) bool {
 type obsT struct {
 	Shape []int   `json:"shape"`
 	Elems []int64 `json:"elems"`
+	Mask  []int   `json:"mask"` // MaskAt of every logical coordinate, row-major (all 0 for an unmasked tensor)
 }
 
 func (g *gen) observe() (obs []obsT, backs [][]int64, bad string) {
@@ -134,10 +164,10 @@ func (g *gen) observe1() ([]obsT, [][]int64, string) {
 	var obs []obsT
 	for i, t := range g.f.Live() {
 		if g.info[i].dead {
-			obs = append(obs, obsT{Shape: []int{}, Elems: []int64{}})
+			obs = append(obs, obsT{Shape: []int{}, Elems: []int64{}, Mask: []int{}})
 			continue
 		}
-		o := obsT{Shape: append([]int{}, []int(t.Shape())...), Elems: []int64{}}
+		o := obsT{Shape: append([]int{}, []int(t.Shape())...), Elems: []int64{}, Mask: []int{}}
 		els, err := world.ElemsOf(t)
 		if err != nil {
 			return nil, nil, fmt.Sprintf("h%d unreadable: %v", i+1, err)
@@ -151,6 +181,20 @@ func (g *gen) observe1() ([]obsT, [][]int64, string) {
 		}
 		if msg := world.MetaInvariant(t); msg != "" {
 			return nil, nil, fmt.Sprintf("h%d metadata: %s", i+1, msg)
+		}
+		sh := []int(t.Shape())
+		for k := 0; k < len(els); k++ {
+			bit := 0
+			if t.IsMasked() {
+				m, err := t.MaskAt(coordOf(k, sh)...)
+				if err != nil {
+					return nil, nil, fmt.Sprintf("h%d MaskAt(%v): %v", i+1, coordOf(k, sh), err)
+				}
+				if m {
+					bit = 1
+				}
+			}
+			o.Mask = append(o.Mask, bit)
 		}
 		obs = append(obs, o)
 	}
@@ -283,6 +327,18 @@ func (g *gen) safeStep() (ok bool) {
 func (g *gen) step() bool {
 	hs := g.alive()
 	if len(hs) < 2 || (len(hs) < 8 && g.r.Intn(10) == 0) {
+		if g.r.Intn(4) == 0 { // a masked tensor: the caller's mask slice is shared with the tensor
+			sh := g.randShape()
+			bits := make([]int, prod(sh))
+			for i := range bits {
+				bits[i] = g.r.Intn(2)
+			}
+			out, ok := g.do(mk("NewMasked", 0, []interface{}{sh, bits}))
+			if out.IsNew {
+				g.info[out.Ret-1].masked = true
+			}
+			return ok
+		}
 		_, ok := g.do(mk("New", 0, []interface{}{g.randShape(), "C", ""}))
 		return ok
 	}
@@ -301,7 +357,57 @@ func (g *gen) step() bool {
 	sh := g.shape(h)
 	t := g.f.T(h)
 	numeric := !x.boolean && !x.integer
-	switch g.r.Intn(22) {
+	k := g.r.Intn(25)
+	if x.masked {
+		// masked tensors: slicing, transposition, element writes, mask operations, handing back (values under a mask
+		// and result masks of other operations are left open by the statements)
+		switch k {
+		case 0, 1, 2, 3, 7, 20, 22, 23, 24:
+		default:
+			return true
+		}
+	}
+	switch k {
+	case 22, 23: // mask operations; a mask is CREATED only on a tensor that is no view and has no views (a view of an
+		// unmasked tensor would get a mask of its own, which Level 1 does not distinguish)
+		if !numeric || len(sh) == 0 || x.strided {
+			return true
+		}
+		if !x.masked && (x.view || len(x.kids) > 0 || t.IsMaterializable()) {
+			return true
+		}
+		if x.view { // listed finding KF-C15-1: mask writes through (non-contiguous) views reach parent elements outside the view
+			return true
+		}
+		var ok bool
+		if k == 22 {
+			_, ok = g.do(mk("ResetMask", h, []int{}))
+		} else {
+			pred := []string{"eq", "gt", "lt", "ge", "le", "ne"}[g.r.Intn(6)]
+			_, ok = g.do(mk("MaskPred", h, []interface{}{pred, g.r.Intn(3), 0}))
+		}
+		x.masked = true
+		return ok
+	case 24: // hand a VIEW back to the pool (its parent lives on)
+		if !x.view || len(x.kids) > 0 || len(hs) <= 2 {
+			return true
+		}
+		tensor.ReturnTensor(t)
+		x.dead = true
+		g.f.Kill(h)
+		if p := x.parent; p > 0 {
+			var keep []int
+			for _, o := range g.info[p-1].kids {
+				if o != h {
+					keep = append(keep, o)
+				}
+			}
+			g.info[p-1].kids = keep
+		}
+		if !g.emit("return", world.Op{K: "ReturnTensor", H: h, A: json.RawMessage("[]")}, world.ExecOut{}) {
+			return false
+		}
+		return g.afterReturn()
 	case 0, 1: // slice
 		if len(hs) >= 8 || x.boolean || x.integer {
 			return true
@@ -321,6 +427,7 @@ func (g *gen) step() bool {
 			ni := g.info[out.Ret-1]
 			ni.view, ni.parent, ni.stepped = true, h, stepped || x.stepped
 			ni.root = x.root
+			ni.masked = x.masked
 			x.kids = append(x.kids, out.Ret)
 		}
 		return good
@@ -582,7 +689,10 @@ func (g *gen) step() bool {
 		x.dead = true
 		g.f.Kill(h)
 		op := world.Op{K: "ReturnTensor", H: h, A: json.RawMessage("[]")}
-		return g.emit("return", op, world.ExecOut{})
+		if !g.emit("return", op, world.ExecOut{}) {
+			return false
+		}
+		return g.afterReturn()
 	default: // pool churn: other users of the pools borrow, scribble and return
 		var held [][]int
 		for sz := 0; sz <= 4; sz++ {
